@@ -1369,3 +1369,236 @@ pub mod verif_hooks {
         (ok, after)
     }
 }
+
+/// Verification hooks (feature `verif`, add-only): a real [NodeSession] and a real, authenticated
+/// and ready [NodeSessionState], driven handler by handler. This fixes the ORDER in which the
+/// session gets to an inbound frame and to a pid lifecycle event, which on a multi-threaded
+/// runtime depends on when the session dequeued the frame relative to the actor's exit.
+#[cfg(feature = "verif")]
+#[allow(missing_docs, missing_debug_implementations, unreachable_pub)]
+pub mod verif_advert {
+    use std::sync::{Arc, Mutex};
+
+    use ractor::registry::PidLifecycleEvent;
+
+    use super::*;
+
+    /// What the session put on the wire: `(true, pid)` = control Spawn, `(false, pid)` = control Terminate
+    pub type WireEvt = (bool, u64);
+
+    struct Recorder(Arc<Mutex<Vec<Option<WireEvt>>>>);
+
+    #[cfg_attr(feature = "async-trait", ractor::async_trait)]
+    impl Actor for Recorder {
+        type Msg = SessionMessage;
+        type State = ();
+        type Arguments = ();
+        async fn pre_start(&self, _: ActorRef<Self::Msg>, _: ()) -> Result<(), ActorProcessingErr> {
+            Ok(())
+        }
+        async fn handle(&self, _: ActorRef<Self::Msg>, message: Self::Msg, _: &mut ()) -> Result<(), ActorProcessingErr> {
+            if let SessionMessage::Send(crate::protocol::NetworkMessage {
+                message:
+                    Some(crate::protocol::meta::network_message::Message::Control(control_protocol::ControlMessage {
+                        msg: Some(msg),
+                    })),
+            }) = message
+            {
+                let mut w = self.0.lock().unwrap();
+                match msg {
+                    control_protocol::control_message::Msg::Spawn(s) => {
+                        w.extend(s.actors.iter().map(|a| Some((true, a.pid))))
+                    }
+                    control_protocol::control_message::Msg::Terminate(t) => {
+                        w.extend(t.ids.iter().map(|i| Some((false, *i))))
+                    }
+                    // the sentinel of `take_wire`
+                    control_protocol::control_message::Msg::Ping(_) => w.push(None),
+                    _ => {}
+                }
+            }
+            Ok(())
+        }
+    }
+
+    /// A message type that travels between nodes
+    pub struct Unit;
+    impl ractor::Message for Unit {
+        fn serializable() -> bool {
+            true
+        }
+        fn serialize(self) -> Result<ractor::message::SerializedMessage, ractor::message::BoxedDowncastErr> {
+            Ok(ractor::message::SerializedMessage::Cast {
+                variant: "Unit".to_string(),
+                args: vec![],
+                metadata: None,
+            })
+        }
+        fn deserialize(_: ractor::message::SerializedMessage) -> Result<Self, ractor::message::BoxedDowncastErr> {
+            Ok(Unit)
+        }
+    }
+
+    struct Original(Arc<std::sync::atomic::AtomicU64>);
+    #[cfg_attr(feature = "async-trait", ractor::async_trait)]
+    impl Actor for Original {
+        type Msg = Unit;
+        type State = ();
+        type Arguments = ();
+        async fn pre_start(&self, _: ActorRef<Self::Msg>, _: ()) -> Result<(), ActorProcessingErr> {
+            Ok(())
+        }
+        async fn handle(&self, _: ActorRef<Self::Msg>, _: Unit, _: &mut ()) -> Result<(), ActorProcessingErr> {
+            self.0.fetch_add(1, std::sync::atomic::Ordering::SeqCst);
+            Ok(())
+        }
+    }
+
+    pub struct AdvertProbe {
+        session: NodeSession,
+        shell: ActorRef<super::super::NodeSessionMessage>,
+        tcp: ActorRef<SessionMessage>,
+        state: NodeSessionState,
+        wire: Arc<Mutex<Vec<Option<WireEvt>>>>,
+        /// the originals: cell, join handle, messages received
+        actors: Vec<(ActorRef<Unit>, Option<ractor::concurrency::JoinHandle<()>>, Arc<std::sync::atomic::AtomicU64>)>,
+    }
+
+    impl AdvertProbe {
+        pub async fn new() -> Self {
+            let wire = Arc::new(Mutex::new(Vec::new()));
+            let (tcp, _) = Actor::spawn(None, Recorder(wire.clone()), ()).await.expect("recorder");
+            // never sent anything by the handlers under test
+            let (other, _) = Actor::spawn(None, Recorder(Arc::default()), ()).await.expect("shell");
+            let addr = SocketAddr::from(([0, 0, 0, 0], 0));
+            let session = NodeSession {
+                cookie: "cookie".to_string(),
+                is_server: true,
+                node_id: 1,
+                this_node_name: auth_protocol::NameMessage {
+                    name: "probe".to_string(),
+                    flags: Some(auth_protocol::NodeFlags { version: 1 }),
+                    connection_string: "probe:1".to_string(),
+                    connection_id: 0,
+                },
+                node_server: other.get_cell().into(),
+                connection_mode: super::super::NodeConnectionMode::Isolated,
+                max_inbound_frame_size: crate::DEFAULT_MAX_INBOUND_FRAME_SIZE,
+                connection_id: 0,
+            };
+            let state = NodeSessionState {
+                tcp: Some(tcp.clone()),
+                ping_task: None,
+                peer_addr: addr,
+                local_addr: addr,
+                epoch: Instant::now(),
+                pong_warnings: PongWarnings::default(),
+                name: None,
+                connection_id: 0,
+                auth: AuthenticationState::AsClient(auth::ClientAuthenticationProcess::Ok),
+                ready: ReadyState::Ready,
+                remote_actors: HashMap::new(),
+                advertised_local_pids: Default::default(),
+            };
+            Self {
+                session,
+                shell: other.get_cell().into(),
+                tcp,
+                state,
+                wire,
+                actors: vec![],
+            }
+        }
+
+        pub fn pid(&self, i: usize) -> Option<u64> {
+            self.actors.get(i).map(|a| a.0.get_id().pid())
+        }
+
+        /// A remotable actor starts; returns its index. Its `Spawn` lifecycle event is NOT handled yet.
+        pub async fn spawn_actor(&mut self) -> usize {
+            let n = Arc::new(std::sync::atomic::AtomicU64::new(0));
+            let (a, h) = Actor::spawn(None, Original(n.clone()), ()).await.expect("original");
+            self.actors.push((a, Some(h), n));
+            self.actors.len() - 1
+        }
+
+        /// Actor `i` stops and has left the pid registry; its `Terminate` lifecycle event is NOT handled yet.
+        pub async fn stop_actor(&mut self, i: usize) {
+            if let Some((a, h, _)) = self.actors.get_mut(i) {
+                a.stop(None);
+                if let Some(h) = h.take() {
+                    let _ = h.await;
+                }
+            }
+        }
+
+        /// The session handles the pid lifecycle event of actor `i` (the real `handle_supervisor_evt`).
+        pub async fn lifecycle_evt(&mut self, i: usize, spawn: bool) {
+            let Some((a, _, _)) = self.actors.get(i) else { return };
+            let cell = a.get_cell();
+            let evt = if spawn { PidLifecycleEvent::Spawn(cell) } else { PidLifecycleEvent::Terminate(cell) };
+            self.session
+                .handle_supervisor_evt(self.shell.clone(), SupervisionEvent::PidLifecycleEvent(evt), &mut self.state)
+                .await
+                .expect("handle_supervisor_evt");
+        }
+
+        /// The session handles an inbound `Cast` / `Call` frame addressed to `pid` (the real `handle_node`).
+        pub fn inbound(&mut self, pid: u64, call: bool) {
+            let msg = if call {
+                node_protocol::node_message::Msg::Call(node_protocol::Call {
+                    to: pid,
+                    tag: 1,
+                    what: vec![],
+                    variant: "Unit".to_string(),
+                    timeout_ms: None,
+                    metadata: None,
+                })
+            } else {
+                node_protocol::node_message::Msg::Cast(node_protocol::Cast {
+                    to: pid,
+                    what: vec![],
+                    variant: "Unit".to_string(),
+                    metadata: None,
+                })
+            };
+            self.session
+                .handle_node(&mut self.state, node_protocol::NodeMessage { msg: Some(msg) }, self.shell.clone());
+        }
+
+        /// The allow-list, ascending.
+        pub fn advertised(&self) -> Vec<u64> {
+            let mut v: Vec<u64> = self.state.advertised_local_pids.iter().copied().collect();
+            v.sort_unstable();
+            v
+        }
+
+        /// Messages actor `i` has handled.
+        pub fn received(&self, i: usize) -> u64 {
+            self.actors.get(i).map(|a| a.2.load(std::sync::atomic::Ordering::SeqCst)).unwrap_or(0)
+        }
+
+        /// Everything the session has put on the wire since the last call (a sentinel Ping pushed
+        /// through the same ordered path delimits it).
+        pub async fn take_wire(&mut self) -> Vec<WireEvt> {
+            self.state.tcp_send_control(control_protocol::ControlMessage {
+                msg: Some(control_protocol::control_message::Msg::Ping(control_protocol::Ping { timestamp: None })),
+            });
+            for _ in 0..100_000 {
+                if self.wire.lock().unwrap().last().is_some_and(|e| e.is_none()) {
+                    break;
+                }
+                ractor::concurrency::sleep(Duration::from_millis(0)).await;
+            }
+            std::mem::take(&mut *self.wire.lock().unwrap()).into_iter().flatten().collect()
+        }
+
+        pub fn shutdown(&mut self) {
+            self.tcp.stop(None);
+            self.shell.stop(None);
+            for (a, _, _) in &self.actors {
+                a.stop(None);
+            }
+        }
+    }
+}
